@@ -70,6 +70,7 @@ package mcp
 //@   ensures [C20:foreign_actor_rejected] trim(actor) != "" && trim(principal) != "" && trim(actor) != trim(principal) ==> result1 != nil
 
 //@ func (*Server).emitMutationAuditEvent
+//@   check encodable
 //@   modifies audits
 //@   calls encoding/json.(*Encoder).Encode requires [C20:record_has_required_keys] "timestamp" in event && "principal" in event && "role" in event && "tool" in event && "input_hash" in event && "result" in event && "duration_ms" in event
 //@   ensures [C20:one_record_iff_mutating] audits == ite(name in MUTATING && s != nil && s.AuditWriter != nil, old(audits) + 1, old(audits))
@@ -95,6 +96,7 @@ package mcp
 //@   trusted
 
 //@ func (*Server).callTool
+//@   check encodable
 //@   requires s != nil && s.AuditWriter != nil
 //@   modifies *
 //@   calls toolConfigParse requires [C20:gate_and_bind:config_parse] accessOK(s, name) && name == "config_parse"
@@ -381,3 +383,28 @@ package mcp
 //@   preserves Server.*
 //@   calls queue.(*SQLiteStore).ResumeMessages requires [C14:the_store_gets_exactly_the_parsed_id_list] mcpParsedIDsOK && arg1.IDs == mcpParsedIDs && filterMutations == old(filterMutations)
 //@   ensures [C14:at_most_one_store_mutation_per_call] filterMutations <= old(filterMutations) + 1
+
+// ---- C20: the audit record can be written: everything put into it is JSON-encodable ----
+// (encoding/json refuses NaN/Inf, channels and functions, and the encoder's error is ignored by the caller,
+// so one such value silently drops the whole record)
+//@ func idMutationAuditDescriptor
+//@ func idsCountFromArgs
+//@   check encodable
+//@ func intFromAnyForError
+//@   trusted
+//@ func idMutationAuditMetadata
+//@   check encodable
+//@ func boolFromAny
+//@   trusted
+//@ func stringFromAny
+//@   trusted
+//@ func filterMutationAuditDescriptor
+//@   trusted
+//@ func filterMutationAuditMetadata
+//@   check encodable
+//@ func configMutationAuditMetadata
+//@   check encodable
+//@ func runtimeControlAuditMetadata
+//@   check encodable
+//@ func rollbackAuditMetadata
+//@   check encodable
